@@ -35,6 +35,7 @@ func openRepro(dir string, delay time.Duration) database.DB {
 //  1. write some keys, FlushIndex (so that CompactIndex has something to do), start CompactIndex
 //  2. a writer overwrites key "a0" with 1, 2, 3, ... and publishes n after Set(n) has RETURNED
 //  3. a reader loads the published n, THEN calls Get("a0") with default options: the value must be >= n.
+//
 // Observed on the unchanged tree: an older value.  When an index is swapped for its compacted snapshot
 // (embedded/store/indexer.go restartIndex) it lacks the transactions indexed during the dump, but the indexer's watcher
 // hub still reports them as indexed, so WaitForIndexingUpto returns at once until the re-indexing has caught up.
@@ -139,8 +140,8 @@ func reproRefGet(dir string) map[string]interface{} {
 	set("b", "b0")
 	ref("r", "a")
 	var mu sync.Mutex
-	rTx := []uint64{}             // txs at which r was (re)pointed, in order
-	valTx := map[string]uint64{}  // value of a -> tx
+	rTx := []uint64{}            // txs at which r was (re)pointed, in order
+	valTx := map[string]uint64{} // value of a -> tx
 	var stop int32
 	var wg sync.WaitGroup
 	wg.Add(1)
@@ -158,8 +159,8 @@ func reproRefGet(dir string) map[string]interface{} {
 		}
 	}()
 	type obs struct {
-		k, v     string
-		tx, rtx  uint64
+		k, v    string
+		tx, rtx uint64
 	}
 	var seen []obs
 	deadline := time.Now().Add(20 * time.Second)
